@@ -79,6 +79,84 @@ def run_batch(args):
     return fam.result()
 
 
+def exit_status_counts(fam, tier):
+    """the exit status is non-zero iff at least one file failed, for failure counts around the u8 / u16 boundaries"""
+    counts = [0, 1, 2, 255, 256, 257, 512] + ([768, 65536] if tier != "quick" else [])
+    with cli.Sandbox("c18f-exit") as sb:
+        cache = {}
+        for k in counts:
+            for mode in ("files", "check"):
+                d = sb.path("e")
+                shutil.rmtree(d, ignore_errors=True)
+                os.makedirs(d)
+                good = {}
+                for i in range(3):
+                    pth = os.path.join(d, f"good{i}.pas")
+                    c = b"a  ;\n" if mode == "files" else b"a;\n"
+                    open(pth, "wb").write(c)
+                    good[pth] = solo(sb, cache, c)[1] if mode == "files" else c
+                lst = sb.path("list.txt")
+                with open(lst, "w") as fh:
+                    names = list(good) + [os.path.join(d, f"missing{i}.pas") for i in range(k)]
+                    # failing files between the good ones
+                    names = names[1:2] + names[3:3 + k // 2] + names[0:1] + names[3 + k // 2:] + names[2:3]
+                    fh.write("\n".join(names) + "\n")
+                rc, out, err = cli.run([f"--mode={mode}", "--files-from", lst], hermetic_cfg=sb.empty_cfg)
+                fam.case(nontrivial=True)
+                fam.transitions += 1
+                case = {"oracle": "c18free", "failing_files": k, "mode": mode, "no_confirm": True}
+                nerr = sum(1 for line in err.decode("utf-8", "replace").splitlines() if line.startswith("ERROR"))
+                if (rc != 0) != (k > 0):
+                    fam.fail("C18", "free-running:exit-status", f"{k} failing files of {k + 3} ({mode} mode): exit status {rc}", case)
+                elif nerr != k:
+                    fam.fail("C18", "free-running:error-reports-differ", f"{k} failing files, {nerr} ERROR lines", case)
+                else:
+                    for pth, want in good.items():
+                        if open(pth, "rb").read() != want:
+                            fam.fail("C18", "free-running:file-differs-from-solo-result", f"{pth} with {k} failing neighbours", case)
+                            break
+
+
+def stdout_sections(fam, tier):
+    """stdout mode on a directory of files of mixed sizes (sections from 5 bytes to > 64 KiB): the output must be the
+    stand-alone sections in some order, each exactly once and unbroken. UNCONTROLLED schedules: repeated runs."""
+    rounds = 6 if tier == "quick" else 40
+    with cli.Sandbox("c18f-stdout") as sb:
+        d = sb.path("s")
+        os.makedirs(d)
+        cache = {}
+        sections = {}
+        for i in range(96):
+            n = [1, 3, 400, 700, 1200, 5000, 2, 900][i % 8]
+            c = b"".join(b"x%d   :=   %d ;\n" % (j, i) for j in range(n))
+            pth = os.path.join(d, f"f{i:03d}.pas")
+            open(pth, "wb").write(c)
+            ok, out = solo(sb, cache, c)
+            sections[pth] = (pth + ":\n").encode() + out + b"\n"
+        for r in range(rounds):
+            for t in (16, 3):
+                rc, out, err = cli.run(["--mode=stdout", d], hermetic_cfg=sb.empty_cfg, env={"RAYON_NUM_THREADS": str(t)})
+                fam.case(nontrivial=True)
+                fam.transitions += 1
+                case = {"oracle": "c18free", "stdout_mode_round": r, "threads": t, "no_confirm": True}
+                rest = out
+                left = dict(sections)
+                bad = None
+                while rest:
+                    nl = rest.find(b":\n")
+                    key = rest[:nl].decode("utf-8", "replace") if nl >= 0 else None
+                    sec = left.pop(key, None)
+                    if sec is None or not rest.startswith(sec):
+                        bad = f"at byte {len(out) - len(rest)} the output does not continue with a whole stand-alone section: {rest[:80]!r}"
+                        break
+                    rest = rest[len(sec):]
+                if bad is None and left:
+                    bad = f"{len(left)} section(s) missing"
+                if bad or rc != 0:
+                    fam.fail("C18", "free-running:stdout-sections", f"round {r}, {t} threads, exit {rc}: {bad}", case)
+                    return
+
+
 def explore(tier, seed):
     kinds = list(KINDS)
     batches = []
@@ -103,6 +181,8 @@ def explore(tier, seed):
             for k, n in st["by_signature"].items():
                 fam.stats["by_signature"][k] = fam.stats["by_signature"].get(k, 0) + n
             fam.stats["violations"] += st["violations"]
+    exit_status_counts(fam, tier)
+    stdout_sections(fam, tier)
     fam.states = fam.len
     fam.samples = [{"kinds": list(batches[3]), "threads": threads}]
     return [fam]
